@@ -1,4 +1,4 @@
-(* ProbeCheck.v — correspondence + monitors for C19. *)
+(* ProbeCheck.v — correspondence + monitors for C19 (409 also C03; 410/411 also C13). *)
 From Coq Require Import List NArith ZArith Bool Uint63.
 Import ListNotations.
 From VF Require Import Base Probe Raw.
@@ -11,37 +11,88 @@ Definition dec_arr (v : list int) : option arrival :=
 Fixpoint dec_all {A} (f : list int -> option A) (l : list (list int)) : list A :=
   match l with [] => [] | v :: l' => match f v with Some x => x :: dec_all f l' | None => dec_all f l' end end.
 
+(* one probe's observations against the model. [st] = step reported (sub-step added for 402's second form);
+   [vobs]: the target was alive when the probe began, so the verdict shows in its state afterwards *)
+Definition probe_verdict (st : N) (awmax score0 itv tmo snd_ expn seq : Z) (tcpen : bool) (tcp : option Z)
+           (arr : list arrival) (vobs susp : bool) (score : Z) (hclean : bool) (dur : Z) (live : bool) : verdict :=
+  let i := (score0 + 1) * itv in
+  let pi := mkPI seq i tmo snd_ arr expn tcp tcpen in
+  (* C13: whatever packets the probe drew, the packet listener must still be taking packets afterwards *)
+  if negb live then mkV 410 st
+  (* monitors on the implementation's own observations *)
+  else if negb ((0 <=? score) && (score <=? awmax - 1)) then mkV 400 st
+  else if negb hclean then mkV 401 st
+  (* the probe loop is sequential: one probe may keep it busy for its awareness-scaled interval, no longer *)
+  else if i <? dur then mkV 409 st
+  else
+    (* the verdict must be "answered" exactly when a matching ack came in time (spec = answered_iff) *)
+    let answered := match probe_outcome pi with Answered => true | _ => false end in
+    let aborted := match probe_outcome pi with Aborted => true | _ => false end in
+    if vobs && negb aborted && Bool.eqb susp answered then mkV 402 st
+    else if vobs && aborted && susp then mkV 402 (st + 1)
+    else if negb (Z.eqb score (apply_delta awmax score0 (probe_delta pi))) then mkV 403 st
+    else vok.
+
+(* single probe on a fresh node. obs: [[suspected; score; handlers_left; aborted; probe duration; listener_alive; shutdown_returned]] *)
 Definition check_probe (cs : list int * (list (list int) * list (list int))) : verdict :=
   match fst cs, snd (snd cs) with
-  | [_; score0; awmax; itv; tmo; snd_; expn; tcpen; tcpm; tcpat; seq], [[susp; score; hleft; _; dur]] =>
-      let i := (zi score0 + 1) * zi itv in
-      let pi := mkPI (zi seq) i (zi tmo) (zi snd_) (dec_all dec_arr (fst (snd cs))) (zi expn)
-                     (if Uint63.eqb tcpm 1 then Some (zi tcpat) else None) (bi tcpen) in
-      (* monitors on the implementation's own observations *)
-      if negb ((0 <=? zi score) && (zi score <=? zi awmax - 1)) then mkV 400 0
-      else if negb (Uint63.eqb hleft 0) then mkV 401 0
-      (* the probe loop is sequential: one probe may keep it busy for its awareness-scaled interval, no longer *)
-      else if i <? zi dur then mkV 409 0
-      else
-        (* the verdict must be "answered" exactly when a matching ack came in time (spec = answered_iff) *)
-        let answered := match probe_outcome pi with Answered => true | _ => false end in
-        let aborted := match probe_outcome pi with Aborted => true | _ => false end in
-        if negb aborted && Bool.eqb (bi susp) answered then mkV 402 0
-        else if aborted && bi susp then mkV 402 1
-        else if negb (Z.eqb (zi score) (apply_delta (zi awmax) (zi score0) (probe_delta pi))) then mkV 403 0
-        else vok
+  | [_; score0; awmax; itv; tmo; snd_; expn; tcpen; tcpm; tcpat; seq], [[susp; score; hleft; _; dur; live; shut]] =>
+      let v := probe_verdict 0 (zi awmax) (zi score0) (zi itv) (zi tmo) (zi snd_) (zi expn) (zi seq) (bi tcpen)
+                             (if Uint63.eqb tcpm 1 then Some (zi tcpat) else None)
+                             (dec_all dec_arr (fst (snd cs))) true (bi susp) (zi score) (Uint63.eqb hleft 0) (zi dur) (bi live) in
+      if negb (N.eqb (vcode v) 0) then v
+      else if negb (bi shut) then mkV 411 0
+      else vok
   | _, _ => mkV 1 0
+  end.
+
+(* chain of probes on one node. cfg: [3; awmax; interval; timeout; score0; shutdown_returned]
+   ops: every arrival of the case [kind; seq; at], at measured from the start of the case;
+   obs: one row per probe, in order:
+     [suspected; score; handlers_left; aborted; duration; start; send; expected_nacks; tcp_enabled; tcp_mode; tcp_at (from the
+      probe's start); seq; target alive at entry; listener_alive]
+   Each probe sees ALL arrivals of the case from its start on, under whatever number they carry (the answers to an
+   earlier probe included: the model ignores them because their number is not the probe's); the score the probe
+   starts from is the one observed after the previous probe. Steps: 10 * (probe index, from 1) (+1). *)
+Definition dec_arr_from (start : Z) (v : list int) : option arrival :=
+  match v with
+  | [k; s; t] => if zi t <? start then None
+                 else Some (if Uint63.eqb k 0 then Ack (zi s) (zi t - start) else Nack (zi s) (zi t - start))
+  | _ => None
+  end.
+Fixpoint check_chain_rows (awmax itv tmo : Z) (ops : list (list int)) (score0 : Z) (st : N) (rows : list (list int)) : verdict :=
+  match rows with
+  | [] => vok
+  | [susp; score; hleft; _; dur; start; snd_; expn; tcpen; tcpm; tcpat; seq; vobs; live] :: rest =>
+      let v := probe_verdict st awmax score0 itv tmo (zi snd_) (zi expn) (zi seq) (bi tcpen)
+                             (if Uint63.eqb tcpm 1 then Some (zi tcpat) else None)
+                             (dec_all (dec_arr_from (zi start)) ops) (bi vobs) (bi susp) (zi score) (Uint63.eqb hleft 0) (zi dur) (bi live) in
+      if negb (N.eqb (vcode v) 0) then v
+      else check_chain_rows awmax itv tmo ops (zi score) (st + 10) rest
+  | _ :: _ => mkV 1 st
+  end.
+Definition check_chain (cs : list int * (list (list int) * list (list int))) : verdict :=
+  match fst cs with
+  | [_; awmax; itv; tmo; score0; shut] =>
+      let v := check_chain_rows (zi awmax) (zi itv) (zi tmo) (fst (snd cs)) (zi score0) 10 (snd (snd cs)) in
+      if negb (N.eqb (vcode v) 0) then v
+      else if negb (bi shut) then mkV 411 0
+      else vok
+  | _ => mkV 1 0
   end.
 
 (* relay case. cfg: [2; req_seq; timeout; want_nack]; ops: arrivals relative to the relay's own ping, with
    seq 0 = the local sequence number the relay chose, anything else foreign;
-   obs: [[acks_relayed (attempts); nacks_sent; acks_with_requesters_seq; local_seq_differs; handlers_left; handler_panicked]] *)
+   obs: [[acks_relayed (attempts); nacks_sent; acks_with_requesters_seq; local_seq_differs; handlers_left; handler_panicked;
+          listener_alive; shutdown_returned]] *)
 Definition check_relay (cs : list int * (list (list int) * list (list int))) : verdict :=
   match fst cs, snd (snd cs) with
-  | [_; rseq; tmo; wn], [[acks; nacks; acksok; fresh; hleft; pan]] =>
+  | [_; rseq; tmo; wn], [[acks; nacks; acksok; fresh; hleft; pan; live; shut]] =>
       let ri := mkRI (zi rseq) 0 (zi tmo) (bi wn) (dec_all dec_arr (fst (snd cs))) in
       let '(ma, mn) := relay_result ri in
       if bi pan then mkV 408 0
+      else if negb (bi live) then mkV 410 1
+      else if negb (bi shut) then mkV 411 1
       else if negb (Uint63.eqb hleft 0) then mkV 401 1
       else if negb (Uint63.eqb acks acksok) then mkV 404 0
       else if negb (bi fresh) then mkV 405 0
@@ -53,6 +104,6 @@ Definition check_relay (cs : list int * (list (list int) * list (list int))) : v
 
 Definition check_any (cs : list int * (list (list int) * list (list int))) : verdict :=
   match fst cs with
-  | k :: _ => if Uint63.eqb k 1 then check_probe cs else check_relay cs
+  | k :: _ => if Uint63.eqb k 1 then check_probe cs else if Uint63.eqb k 3 then check_chain cs else check_relay cs
   | [] => mkV 1 0
   end.
